@@ -414,10 +414,10 @@ def ref_encode(o, cfg, reg):
         spec = reg.info[type(o)]['spec']
         out = {}
         for fd in spec['fields']:
-            key = fd['alias'] if fd.get('alias') is not None else ref_key(fd['name'], cfg.get('xf', 'CAMEL'))
+            key = fd['alias'] if fd.get('alias') is not None else ref_key(fd['name'], cfg.get('xf') or 'CAMEL')
             out[key] = f(getattr(o, fd['name']))
         if spec.get('tag') is not None:
-            out[cfg.get('tag_key', '__tag__')] = spec['tag']
+            out[cfg.get('tag_key') or '__tag__'] = spec['tag']
         return out
     if isinstance(o, tuple) and hasattr(o, '_fields'):
         return type(o)(*[f(x) for x in o])
